@@ -369,4 +369,90 @@ theorem appendSelfRaw_growth_dangling (al : Alloc) (b : Buf) (off k : Nat) (h : 
   unfold Buf.appendSelfRaw
   simp [hcs, hn, hok]
 
+
+/-! #### fetch into the own writable region -/
+
+theorem fetchIntoRaw_writable (b : Buf) (n : Nat) (h : b.Inv)
+    (hk : b.w + min n (b.w - b.r) ≤ b.mem.length) :
+    (b.fetchIntoRaw b.w n).2.2 = .none ∧ (b.fetchIntoRaw b.w n).1.buf.Inv ∧
+    (b.fetchIntoRaw b.w n).1.buf.readable = b.readable.drop n ∧
+    (b.fetchIntoRaw b.w n).2.1 = b.readable.take n ∧
+    (b.fetchIntoRaw b.w n).1.buf.mem.length = b.mem.length ∧
+    ((b.fetchIntoRaw b.w n).1.buf.mem.drop b.w).take (min n (b.w - b.r)) = b.readable.take n ∧
+    (b.fetchIntoRaw b.w n).1.st = .ok ∧
+    (∀ a ∈ (b.fetchIntoRaw b.w n).1.acc, a.ok) := by
+  have hl := readable_length b h
+  have hrs := readableSize_eq b h
+  obtain ⟨hrw, hws, hW⟩ := h
+  generalize hkdef : (if n > b.readableSize then b.readableSize else n) = k
+  have hkv : k = min n (b.w - b.r) := by rw [← hkdef, hrs]; split <;> omega
+  have hdl : (b.readable.take k).length = k := by rw [List.length_take, hl]; omega
+  have hcap : b.w + (b.readable.take k).length ≤ b.mem.length := by rw [hdl]; omega
+  have hp : (poke b.mem b.w (b.readable.take k)).length = b.mem.length := poke_length _ _ _ hcap
+  have hI' : ({ b with mem := poke b.mem b.w (b.readable.take k) } : Buf).Inv :=
+    ⟨hrw, by simp only [hp]; exact hws, by simp only [hp]; exact hW⟩
+  have hr' : ({ b with mem := poke b.mem b.w (b.readable.take k) } : Buf).readable = b.readable := by
+    simp only [Buf.readable]
+    exact drop_take_poke_before b.mem b.w _ b.r (b.w - b.r) (by omega) hws
+  have hh := hasRead_spec _ k hI'
+  have htk : b.readable.take k = b.readable.take n := by
+    rw [hkv]; by_cases hc : n ≤ b.w - b.r
+    · rw [Nat.min_eq_left hc]
+    · rw [Nat.min_eq_right (by omega), List.take_of_length_le (by omega), List.take_of_length_le (by omega)]
+  have hdk : b.readable.drop k = b.readable.drop n := by
+    rw [hkv]; by_cases hc : n ≤ b.w - b.r
+    · rw [Nat.min_eq_left hc]
+    · rw [Nat.min_eq_right (by omega), List.drop_of_length_le (by omega), List.drop_of_length_le (by omega)]
+  unfold Buf.fetchIntoRaw
+  simp only [hkdef]
+  refine ⟨?_, hh.1, ?_, htk, ?_, ?_, trivial, ?_⟩
+  · have : ¬ (k ≠ 0 ∧ b.r < b.w + k ∧ b.w < b.r + k) := by omega
+    simp [this]
+  · rw [hh.2.1, hr', hdk]
+  · rw [hh.2.2]; exact hp
+  · rw [hh.2.2, ← hkv, ← htk]
+    have := drop_take_poke_same b.mem b.w (b.readable.take k) hcap
+    rw [hdl] at this; exact this
+  · intro a ha
+    simp only [List.mem_cons, List.not_mem_nil, or_false] at ha
+    rcases ha with rfl | rfl <;> (right; simp [Buf.size]; omega)
+
+
+/-- the composite of `step (.fetchSelf …)`: reserve `min(n, readable)` bytes, then fetch into `writableBegin()` -/
+theorem fetchSelf_spec (al : Alloc) (b : Buf) (n : Nat) (h : b.Inv) :
+    ((b.ensure al (if n > b.readableSize then b.readableSize else n)).st = .ok →
+      let e := b.ensure al (if n > b.readableSize then b.readableSize else n)
+      (e.buf.fetchIntoRaw e.buf.w n).2.2 = .none ∧ (e.buf.fetchIntoRaw e.buf.w n).1.buf.Inv ∧
+      (e.buf.fetchIntoRaw e.buf.w n).1.buf.readable = b.readable.drop n ∧
+      (e.buf.fetchIntoRaw e.buf.w n).2.1 = b.readable.take n ∧
+      (∀ a ∈ e.acc ++ (e.buf.fetchIntoRaw e.buf.w n).1.acc, a.ok)) := by
+  have hrs := readableSize_eq b h
+  have hkv : (if n > b.readableSize then b.readableSize else n) = min n (b.w - b.r) := by
+    rw [hrs]; split <;> omega
+  generalize (if n > b.readableSize then b.readableSize else n) = k at hkv ⊢
+  intro hst
+  have he := ensure_spec al b k h
+  have hk := he.1 hst
+  have hlen : (b.ensure al k).buf.w - (b.ensure al k).buf.r = b.w - b.r := by
+    rw [← readable_length _ hk.1, hk.2.1, readable_length _ h]
+  have hroom : (b.ensure al k).buf.w + min n ((b.ensure al k).buf.w - (b.ensure al k).buf.r) ≤
+      (b.ensure al k).buf.mem.length := by
+    rw [hlen, ← hkv]; exact hk.2.2
+  have hf := fetchIntoRaw_writable _ n hk.1 hroom
+  refine ⟨hf.1, hf.2.1, by rw [hf.2.2.1, hk.2.1], by rw [hf.2.2.2.1, hk.2.1], ?_⟩
+  intro a ha
+  simp only [List.mem_append] at ha
+  rcases ha with ha | ha
+  · exact he.2.2 a ha
+  · exact hf.2.2.2.2.2.2.2 a ha
+
+/-- the source operand of `b_i.append(b_j.readableBegin() + off, k)` lies inside `b_j`'s block -/
+theorem appendFrom_source_ok (o : Buf) (off k : Nat) (h : o.Inv) (hk : ¬ (off + k > o.readableSize)) :
+    (⟨o.size, uadd o.r off, k⟩ : Access).ok := by
+  rw [readableSize_eq o h] at hk
+  obtain ⟨hrw, hws, hW⟩ := h
+  right
+  rw [uadd_eq _ _ (by omega)]
+  simp [Buf.size]; omega
+
 end Tbox.C07
